@@ -39,6 +39,7 @@ import FianoModel.Nvram.FuelLemmas
 import FianoModel.Nvram.Tie
 import FianoModel.Nvram.TieLogic
 import FianoModel.Nvram.CodeTie   -- T1 code-as-code tie (wp-t1x): audited as a tie module of this check
+import FianoModel.Nvram.CodeTieGuid   -- T1 code-as-code tie of getGUIDFromStore (wp-c10c, kind nvlistfn): audited as a tie module
 import FianoModel.Uefi.CodeTie   -- T1 code-as-code tie (wp-t1x): audited as a tie module of this check
 
 namespace Fiano.Nvram
